@@ -148,3 +148,178 @@ package machine
 //@   props C20
 //@   requires set: nodup(s)
 //@   ensures def: forall x string :: mem(ret, x) <==> mem(s, x) && !mem(states, x)
+
+// ---- trusted frame contracts: logging and step recording (assumed not to
+// touch any state the properties mention; listed in every evidence file) ----
+
+//@ func (m *Machine) log(level LogLevel, msg string, args ...any)
+//@   trusted logging only
+//@ func (m *Machine) logEv(e *Event, level LogLevel, msg string, args ...any)
+//@   trusted logging only
+//@ func (m *Mutation) LogArgs(mapper LogArgsMapperFn) (r string)
+//@   trusted log text only
+
+// ---- C01: clocks ----
+
+// ClockInv: tick parity is activity, the active list is a duplicate-free subset
+// of the registered names.
+//@ pred ClockInv(m *Machine) := nodup(m.activeStates) && subset(m.activeStates, m.stateNames)
+//@   && (forall s string :: mem(m.stateNames, s) ==> (odd(m.clock[s]) <==> mem(m.activeStates, s)))
+
+// TickDelta: the documented step of one state's tick in one transition.
+//@ fn TickDelta(prev S, target S, called S, schema Schema, s string) int :=
+//@      (!mem(prev, s) && mem(target, s)) ? 1
+//@    : ((mem(prev, s) && mem(target, s) && mem(called, s) && schema[s].Multi) ? 2
+//@    : ((mem(prev, s) && !mem(target, s)) ? 1 : 0))
+
+//@ func (m *Machine) setActiveStates(calledStates S, targetStates S, isAuto bool) (previous S)
+//@   props C01 C03
+//@   requires locks: unlocked(m.schemaMx)
+//@   requires tx:    m.t != nil
+//@   requires tgt:   nodup(targetStates) && subset(targetStates, m.stateNames)
+//@   requires inv:   ClockInv(m) && !isnil(m.clock)
+//@   requires room:  forall s string :: m.clock[s] <= MaxU64 - 2
+//@   assigns  m.activeStates, m.clock
+//@   ensures  disposing: old(m.disposing) ==> len(previous) == 0 && unchanged(m.activeStates) && mapeq(m.clock, old(m.clock))
+//@   ensures  applied:  !old(m.disposing) ==> seqeq(m.activeStates, targetStates) && fresh(m.activeStates)
+//@   ensures  step:     !old(m.disposing) ==> forall s string :: m.clock[s] == old(m.clock[s]) + TickDelta(old(m.activeStates), targetStates, calledStates, m.schema, s)
+//@   ensures  inv:      ClockInv(m) && !isnil(m.clock)
+//@   ensures  ret:      !old(m.disposing) ==> seqeq(previous, old(m.activeStates))
+//@   ensures  locks:    unlocked(m.schemaMx)
+//@   loop 1 invariant frame: seqeq(m.activeStates, targetStates) && !isnil(m.clock) && unlocked(m.schemaMx)
+//@   loop 1 invariant step:  forall s string :: m.clock[s] == old(m.clock[s]) +
+//@        ((exists j int :: 0 <= j && j < idx1 && targetStates[j] == s)
+//@           ? (!mem(previous, s) ? 1 : ((mem(calledStates, s) && m.schema[s].Multi) ? 2 : 0)) : 0)
+//@   loop 2 invariant frame: seqeq(m.activeStates, targetStates) && !isnil(m.clock) && unlocked(m.schemaMx)
+//@   loop 2 invariant step:  forall s string :: m.clock[s] == old(m.clock[s]) +
+//@        (mem(targetStates, s) ? (!mem(previous, s) ? 1 : ((mem(calledStates, s) && m.schema[s].Multi) ? 2 : 0)) : 0) +
+//@        ((exists j int :: 0 <= j && j < idx2 && removedStates[j] == s) ? 1 : 0)
+
+// ---- C01 / C20: readers ----
+
+// SchemaInv: registered names and schema keys coincide.
+//@ pred SchemaInv(m *Machine) := nodup(m.stateNames) && (forall x string :: has(m.schema, x) <==> mem(m.stateNames, x))
+//@ pred Known(m *Machine, states S) := forall i int :: 0 <= i && i < len(states) ==> has(m.schema, states[i])
+//@ opred AllIn(names S, active S, states S) := forall i int :: 0 <= i && i < len(states) ==> mem(names, states[i]) && mem(active, states[i])
+//@ pred AllActive(m *Machine, states S) := AllIn(m.stateNames, m.activeStates, states)
+
+//@ func (m *Machine) schemaSafe() (r Schema)
+//@   props C01 C12
+//@   requires locks: unlocked(m.schemaMx)
+//@   ensures  def:   r == m.schema
+//@   ensures  locks: unlocked(m.schemaMx)
+
+//@ func (m *Machine) mustParseStates(states S) (ret S)
+//@   props C01 C02 C20
+//@   abstracts panics when a state is unknown: excluded by the precondition `known` (documented domain)
+//@   requires locks: unlocked(m.schemaMx)
+//@   requires known: Known(m, states)
+//@   ensures  disposing: old(m.disposing) ==> isnil(ret)
+//@   ensures  set:   !old(m.disposing) ==> nodup(ret) && (forall x string :: mem(ret, x) <==> mem(states, x))
+//@   ensures  id:    !old(m.disposing) && nodup(states) ==> ret == states
+//@   ensures  locks: unlocked(m.schemaMx)
+//@   loop 1 invariant seen: !isnil(seen) && unlocked(m.schemaMx) && (forall x string :: has(seen, x) <==> (exists j int :: 0 <= j && j < i && states[j] == x))
+//@   loop 1 invariant dups: dups <==> (exists a, b int :: 0 <= a && a < b && b < i && states[a] == states[b])
+
+//@ func (m *Machine) ParseStates(states S) (ret S)
+//@   props C11 C20
+//@   requires locks: unlocked(m.schemaMx)
+//@   ensures  disposing: old(m.disposing) ==> isnil(ret)
+//@   ensures  def:   !old(m.disposing) ==> nodup(ret) && (forall x string :: mem(ret, x) <==> mem(states, x) && has(m.schema, x))
+//@   ensures  locks: unlocked(m.schemaMx)
+//@   ensures  order: !old(m.disposing) ==> fresh(ret)
+//@   loop 1 invariant seen: !isnil(seen) && unlocked(m.schemaMx) && fresh(ret) && nodup(ret) && (forall x string :: has(seen, x) <==> mem(ret, x))
+//@   loop 1 invariant mem:  forall x string :: mem(ret, x) <==> (has(m.schema, x) && (exists j int :: 0 <= j && j < i && states[j] == x))
+
+//@ func (m *Machine) is(states S) (r bool)
+//@   props C01
+//@   ensures def: r <==> (!m.disposing && AllActive(m, states))
+//@   loop 1 invariant all: forall j int :: 0 <= j && j < idx1 ==> mem(m.stateNames, states[j]) && mem(m.activeStates, states[j])
+
+//@ func (m *Machine) Is(states S) (r bool)
+//@   props C01 C12 C20
+//@   requires locks: unlocked(m.activeStatesMx)
+//@   ensures  def:   r <==> (!m.disposing && AllActive(m, states))
+//@   ensures  locks: unlocked(m.activeStatesMx)
+
+//@ func (m *Machine) Is1(state string) (r bool)
+//@   props C01 C20
+//@   requires locks: unlocked(m.activeStatesMx)
+//@   ensures  def:   r <==> (!m.disposing && mem(m.stateNames, state) && mem(m.activeStates, state))
+//@   ensures  locks: unlocked(m.activeStatesMx)
+
+//@ func (m *Machine) not(states S) (r bool)
+//@   props C01
+//@   abstracts panics when a state is unknown: excluded by the precondition `known`
+//@   requires locks: unlocked(m.schemaMx)
+//@   requires known: Known(m, states)
+//@   ensures  def:   r <==> (forall i int :: 0 <= i && i < len(states) && !m.disposing ==> !mem(m.activeStates, states[i]))
+//@   ensures  locks: unlocked(m.schemaMx)
+
+//@ func (m *Machine) Not(states S) (r bool)
+//@   props C01 C12 C20
+//@   requires locks: unlocked(m.activeStatesMx) && unlocked(m.schemaMx)
+//@   requires known: Known(m, states)
+//@   ensures  def:   r <==> (!m.disposing && (forall i int :: 0 <= i && i < len(states) ==> !mem(m.activeStates, states[i])))
+//@   ensures  locks: unlocked(m.activeStatesMx) && unlocked(m.schemaMx)
+
+//@ func (m *Machine) Any(states ...S) (r bool)
+//@   props C01 C20
+//@   requires locks: unlocked(m.activeStatesMx)
+//@   ensures  def:   r <==> (exists k int :: 0 <= k && k < len(states) && !m.disposing && AllActive(m, states[k]))
+//@   ensures  locks: unlocked(m.activeStatesMx)
+//@   loop 1 invariant none: unlocked(m.activeStatesMx) && (forall k int :: 0 <= k && k < idx1 ==> !(!m.disposing && AllActive(m, states[k])))
+
+//@ func (m *Machine) Any1(states ...string) (r bool)
+//@   props C01 C20
+//@   requires locks: unlocked(m.activeStatesMx)
+//@   ensures  def:   r <==> (exists k int :: 0 <= k && k < len(states) && !m.disposing && mem(m.stateNames, states[k]) && mem(m.activeStates, states[k]))
+//@   ensures  locks: unlocked(m.activeStatesMx)
+//@   loop 1 invariant none: unlocked(m.activeStatesMx) && (forall k int :: 0 <= k && k < idx1 ==> !(!m.disposing && mem(m.stateNames, states[k]) && mem(m.activeStates, states[k])))
+
+//@ func (m *Machine) time(states S) (ret Time)
+//@   props C01
+//@   requires locks: unlocked(m.schemaMx)
+//@   ensures  disposed: old(m.disposed) ==> isnil(ret)
+//@   ensures  all:   !old(m.disposed) && isnil(states) ==> len(ret) == len(m.stateNames) && (forall i int :: 0 <= i && i < len(ret) ==> ret[i] == m.clock[m.stateNames[i]])
+//@   ensures  some:  !old(m.disposed) && !isnil(states) ==> len(ret) == len(states) && (forall i int :: 0 <= i && i < len(ret) ==> ret[i] == m.clock[states[i]])
+//@   ensures  fresh: fresh(ret)
+//@   ensures  locks: unlocked(m.schemaMx)
+//@   loop 1 invariant vals: len(ret) == len(states) && fresh(ret) && !isnil(ret) && (forall j int :: 0 <= j && j < i ==> ret[j] == m.clock[states[j]])
+
+//@ func (m *Machine) Time(states S) (ret Time)
+//@   props C01 C12 C20
+//@   requires locks: unlocked(m.schemaMx) && unlocked(m.activeStatesMx)
+//@   ensures  disposed: old(m.disposed) ==> isnil(ret)
+//@   ensures  all:   !old(m.disposed) && isnil(states) ==> len(ret) == len(m.stateNames) && (forall i int :: 0 <= i && i < len(ret) ==> ret[i] == m.clock[m.stateNames[i]])
+//@   ensures  some:  !old(m.disposed) && !isnil(states) ==> len(ret) == len(states) && (forall i int :: 0 <= i && i < len(ret) ==> ret[i] == m.clock[states[i]])
+//@   ensures  fresh: fresh(ret)
+//@   ensures  locks: unlocked(m.schemaMx) && unlocked(m.activeStatesMx)
+
+//@ func (m *Machine) Tick(state string) (r uint64)
+//@   props C01 C12 C20
+//@   requires locks: unlocked(m.activeStatesMx)
+//@   ensures  def:   r == (m.disposing ? 0 : m.clock[state])
+//@   ensures  locks: unlocked(m.activeStatesMx)
+
+//@ func (m *Machine) Clock(states S) (ret Clock)
+//@   props C01 C12 C20
+//@   requires locks: unlocked(m.activeStatesMx)
+//@   ensures  fresh: fresh(ret) && !isnil(ret)
+//@   ensures  all:   !old(m.disposing) && isnil(states) ==> (forall x string :: has(ret, x) <==> mem(m.stateNames, x)) && (forall x string :: has(ret, x) ==> ret[x] == m.clock[x])
+//@   ensures  some:  !old(m.disposing) && !isnil(states) ==> (forall x string :: has(ret, x) <==> mem(states, x)) && (forall x string :: has(ret, x) ==> ret[x] == m.clock[x])
+//@   ensures  locks: unlocked(m.activeStatesMx)
+//@   loop 1 invariant vals: fresh(ret) && !isnil(ret) && (forall x string :: has(ret, x) <==> (exists j int :: 0 <= j && j < idx1 && states[j] == x)) && (forall x string :: has(ret, x) ==> ret[x] == m.clock[x])
+
+//@ func (m *Machine) ActiveStates(states S) (ret S)
+//@   props C01 C12 C20
+//@   requires locks: unlocked(m.activeStatesMx)
+//@   ensures  fresh: fresh(ret)
+//@   ensures  all:   !old(m.disposing) && isnil(states) ==> seqeq(ret, m.activeStates)
+//@   ensures  some:  !old(m.disposing) && !isnil(states) ==> (forall x string :: mem(ret, x) <==> mem(states, x) && mem(m.activeStates, x))
+//@   ensures  locks: unlocked(m.activeStatesMx)
+//@   loop 1 invariant sel: fresh(ret) && (forall x string :: mem(ret, x) <==> (exists j int :: 0 <= j && j < idx1 && states[j] == x && mem(m.activeStates, x)))
+
+//@ func (m *Machine) Has(states S) (r bool)
+//@   props C20
+//@   ensures def: r <==> (!m.disposing && subset(states, m.stateNames))
